@@ -29,6 +29,7 @@ DIMS = {
     "where": ["", "where Self: Sized", "where u8: Copy, Self: Send", "where Self: Send, Self: Sync, u8: Copy, u8: Clone"],
     "mattrs": [()] + [(a,) for a in MATTRS],
     "pattr": [False, True],     # an attribute on a method parameter
+    "ppat": ["", "wild", "mut", "at"],   # the parameter declared with a pattern (`mut` / `@` only together with a default body)
     "body": [False, True],
     "assoc": ["", "type A;", "type A: Clone + Default;", "type A; fn g(&self) -> Self::A;"],
     "async": [False, True, "at"],      # "at": async fn + `#[async_trait]` below entrait (and on the user's impl)
@@ -51,6 +52,8 @@ def enumerate_states(tier):
                     continue   # three-way combinations use single attributes only
                 if "above" in dev and "below" in dev and set(DIMS["above"][dev["above"]]) & set(DIMS["below"][dev["below"]]):
                     continue   # the same attribute twice is the user's own error (e.g. multiple `deprecated`)
+                if DIMS["ppat"][dev.get("ppat", 0)] in ("mut", "at") and not dev.get("body"):
+                    continue   # binding modes are not Rust in a declaration without body
                 key = "t_" + ("_".join("%s%d" % (d[:3], dev[d]) for d in ORDER if d in dev) or "default")
                 states.append(dict(key=key, dev=dev))
                 transitions += n
@@ -61,6 +64,15 @@ def enumerate_states(tier):
         for ma in range(1, len(DIMS["mattrs"])):
             for third in [("async", 1), ("async", 2), ("pattr", 1)] + [("opts", i) for i in range(1, len(DIMS["opts"]))]:
                 dev = {"mattrs": ma, "body": 1, third[0]: third[1]}
+                key = "t_" + "_".join("%s%d" % (d[:3], dev[d]) for d in ORDER if d in dev)
+                if key not in seen:
+                    states.append(dict(key=key, dev=dev))
+                    transitions += 3
+    if k < 3:
+        seen = {s["key"] for s in states}
+        for pp in range(1, len(DIMS["ppat"])):
+            for third in [("async", 1), ("async", 2)] + [("opts", i) for i in range(1, len(DIMS["opts"]))]:
+                dev = {"ppat": pp, "body": 1, third[0]: third[1]}
                 key = "t_" + "_".join("%s%d" % (d[:3], dev[d]) for d in ORDER if d in dev)
                 if key not in seen:
                     states.append(dict(key=key, dev=dev))
@@ -90,8 +102,10 @@ def trait_src(s):
     if val(s, "assoc"):
         L.append("    " + val(s, "assoc"))
     L += ["    " + MATTRS[a] for a in val(s, "mattrs")]
-    sig = "%sfn m(&self, %sa: i64) -> i64" % ("async " if val(s, "async") else "", "#[allow(unused_variables)] " if val(s, "pattr") else "")
-    L.append("    " + sig + (" { a + 100 }" if val(s, "body") else ";"))
+    pat = {"": "a", "wild": "_", "mut": "mut a", "at": "a @ _"}[val(s, "ppat")]
+    sig = "%sfn m(&self, %s%s: i64) -> i64" % ("async " if val(s, "async") else "", "#[allow(unused_variables)] " if val(s, "pattr") else "", pat)
+    body = {"": "{ a + 100 }", "wild": "{ 101 }", "mut": "{ a += 100; a }", "at": "{ a + 100 }"}[val(s, "ppat")]
+    L.append("    " + sig + (" " + body if val(s, "body") else ";"))
     if val(s, "second"):
         L.append("    " + val(s, "second"))
     L.append("}")
